@@ -13,13 +13,15 @@ pub mod c11;
 pub mod c12;
 pub mod c13;
 pub mod c14;
+pub mod c15;
 pub mod c16;
 pub mod c17;
 pub mod c18;
+pub mod c19;
 
 use crate::engine::Property;
 
-pub const ALL_IDS: &[&str] = &["C01", "C02", "C03", "C04", "C05", "C06", "C07", "C08", "C09", "C10", "C11", "C12", "C13", "C14", "C16", "C17", "C18"];
+pub const ALL_IDS: &[&str] = &["C01", "C02", "C03", "C04", "C05", "C06", "C07", "C08", "C09", "C10", "C11", "C12", "C13", "C14", "C15", "C16", "C17", "C18", "C19"];
 
 pub fn build(id: &str) -> Option<Property> {
     match id {
@@ -37,9 +39,11 @@ pub fn build(id: &str) -> Option<Property> {
         "C12" => Some(c12::build()),
         "C13" => Some(c13::build_property()),
         "C14" => Some(c14::build()),
+        "C15" => Some(c15::build()),
         "C16" => Some(c16::build()),
         "C17" => Some(c17::build()),
         "C18" => Some(c18::build()),
+        "C19" => Some(c19::build()),
         _ => None,
     }
 }
